@@ -297,8 +297,13 @@ func resultType(r Result, decorator bool) reflect.Type {
 // ---------- reading arguments ----------
 
 func atomOf(v reflect.Value) *Atom {
-	if v.Kind() == reflect.Chan {
-		return nil // channel-typed parameters are only ever optional and absent
+	if v.Kind() == reflect.Map {
+		// palette[20]: map[*Prov]<-chan int, a single entry whose key is the provenance; nil = absent
+		for _, k := range v.MapKeys() {
+			p := k.Interface().(*Prov)
+			return &Atom{p.Fn, p.Exec, p.Slot, p.Idx}
+		}
+		return nil
 	}
 	if v.Kind() == reflect.Interface {
 		if v.IsNil() {
@@ -351,6 +356,11 @@ func mkValue(t reflect.Type, p *Prov) reflect.Value {
 	if t.Kind() == reflect.Interface {
 		// a function declared to return an interface type: box a T15
 		return mkValue(palette[numStructTypes-1], p).Convert(t)
+	}
+	if t.Kind() == reflect.Map {
+		m := reflect.MakeMap(t)
+		m.SetMapIndex(reflect.ValueOf(p), reflect.Zero(t.Elem()))
+		return m
 	}
 	v := reflect.New(t).Elem()
 	v.Field(0).Set(reflect.ValueOf(Base{P: p}))
@@ -696,6 +706,10 @@ func main() {
 	debug.SetMaxStack(48 << 20)
 	if len(os.Args) >= 2 && os.Args[1] == "idprobe" {
 		mainIDProbe()
+		return
+	}
+	if len(os.Args) >= 2 && os.Args[1] == "names" {
+		mainNames()
 		return
 	}
 	if len(os.Args) < 3 {
